@@ -14,7 +14,8 @@ def extra_checks(tier, seed):
     from pyvc import natives
     from pyvc.spec_tools import solve
     out = []
-    for name, (hyps, goal) in natives.join_lemma_obligations():
+    from . import ws_common as _wc
+    for name, (hyps, goal) in natives.join_lemma_obligations() + _wc.ws_lemma_obligations():
         out.append(solve("%s/lemma/" % __name__.split(".")[-1].upper() + name, hyps, goal, 20000))
     return out
 
